@@ -55,7 +55,7 @@ def mk_sim(pre, mv=0, case='isotropic'):
     survey = cx.Obj('Survey', {'_data': ds, 'sources': {SRC: cx.Obj('TxElectricDipole', {})}, 'receivers': {'RxEP-1': cx.Obj('RxElectricPoint', {})},
                                'frequencies': {FRQ: 1.0}, 'shape': cx.Opaque('shape')}, mod='surveys')
     model = cx.Obj('Model', dict(mv=mv, case=case, epsilon_r=None, mu_r=None, grid=cx.Obj('TensorMesh', {}), shape=(z3.Int('n0'), z3.Int('n1'), z3.Int('n2')),
-                                 map=cx.Obj('MapResistivity', {}), property_x=cx.NDArr(cx.Store('px')), property_y=None, property_z=None))
+                                 map=cx.Obj('MapResistivity', {}, mod='maps'), property_x=cx.NDArr(cx.Store('px')), property_y=None, property_z=None))
     model.fields['__tags__'] = {('M', mv)}
     sim = cx.Obj('Simulation', dict(
         survey=survey, model=model, max_workers=1, gridding='same', verb=0, layered=False, receiver_interpolation='linear',
